@@ -4,6 +4,7 @@ package app
 
 import (
 	"regexp"
+	"strconv"
 	"strings"
 	"time"
 
@@ -63,4 +64,39 @@ func vChunkSamples(init *mp4.InitSegment, ch chunk) []mp4.FullSample {
 		panic("vChunkSamples: " + err.Error())
 	}
 	return ss
+}
+
+// vMkStppSegment builds a real one-sample stpp-like segment whose sample is a TTML snippet with begin 00:00:00.000
+// (native side; under symbolic execution vStubMkStppSegment builds the box skeleton).
+func vMkStppSegment(tfdt uint64) *mp4.MediaSegment {
+	seg := mp4.NewMediaSegment()
+	frag, err := mp4.CreateFragment(1, 1)
+	if err != nil {
+		panic(err)
+	}
+	seg.AddFragment(frag)
+	data := []byte(`<p begin="00:00:00.000" end="00:00:01.000">x</p>`)
+	frag.AddFullSample(mp4.FullSample{Sample: mp4.Sample{Flags: mp4.SyncSampleFlags, Dur: 1000, Size: uint32(len(data))}, DecodeTime: tfdt, Data: data})
+	return seg
+}
+
+// vStppShiftMSOf reads the shift applied to the TTML timestamps back from the rewritten sample (native side).
+func vStppShiftMSOf(seg *mp4.MediaSegment) int {
+	s := string(seg.Fragments[0].Mdat.Data)
+	i := strings.Index(s, `begin="`)
+	if i < 0 {
+		panic("vStppShiftMSOf: no begin attribute")
+	}
+	st := s[i+7:]
+	j := strings.Index(st, `"`)
+	st = st[:j] // H+:MM:SS.mmm
+	parts := strings.Split(st, ":")
+	h, _ := strconv.Atoi(parts[0])
+	mi, _ := strconv.Atoi(parts[1])
+	sec, _ := strconv.Atoi(parts[2][:2])
+	ms := 0
+	if len(parts[2]) > 3 {
+		ms, _ = strconv.Atoi(parts[2][3:])
+	}
+	return ((h*60+mi)*60+sec)*1000 + ms
 }
